@@ -83,7 +83,9 @@ type orderedPackets []orderedPacket
 
 func (o orderedPackets) Sort() {
 	sort.Slice(o, func(i, j int) bool {
-		return o[i].orderID() < o[j].orderID()
+		// order ids are a 32-bit counter: compare them in serial-number arithmetic, so that arrival order
+		// is kept when the counter wraps (after 2^32 packets in one session)
+		return int32(o[i].orderID()-o[j].orderID()) < 0
 	})
 }
 
